@@ -121,4 +121,148 @@ Proof.
       * rewrite aff_get_update_other by assumption. reflexivity.
 Qed.
 
-(* END-PART-1 *)
+(* the outer loop over (source row, old value, new value) *)
+Definition adj_step (iter : cell -> list Z) (aff : affected) (x : nat * (cell * cell)) : affected :=
+  if negb (cell_eqb (snd (snd x)) (fst (snd x))) then
+    fold_left (fun a t => aff_update t (ru_add (fst x)) a) (iter (snd (snd x)))
+      (fold_left (fun a t => aff_update t (ru_remove (fst x)) a) (iter (fst (snd x))) aff)
+  else aff.
+
+Definition changed_old (iter : cell -> list Z) (trs : list (nat * (cell * cell))) (t : Z) (x : nat) : Prop :=
+  exists o n, In (x, (o, n)) trs /\ cell_eqb n o = false /\ In t (iter o).
+Definition changed_new (iter : cell -> list Z) (trs : list (nat * (cell * cell))) (t : Z) (x : nat) : Prop :=
+  exists o n, In (x, (o, n)) trs /\ cell_eqb n o = false /\ In t (iter n).
+
+Lemma aff_outer : forall iter trs m, aff_sorted m -> NoDup (map fst m) ->
+  let m' := fold_left (adj_step iter) trs m in
+  aff_sorted m' /\ NoDup (map fst m') /\
+  (forall k, In k (map fst m') <-> In k (map fst m) \/ exists x, changed_old iter trs k x \/ changed_new iter trs k x) /\
+  (forall t x, In x (ru_removals (aff_get t m')) <-> In x (ru_removals (aff_get t m)) \/ changed_old iter trs t x) /\
+  (forall t x, In x (ru_additions (aff_get t m')) <-> In x (ru_additions (aff_get t m)) \/ changed_new iter trs t x).
+Proof.
+  intros iter trs. induction trs as [|[r [o n]] trs IH]; intros m Hs Hn; cbn [fold_left].
+  - split; [assumption|]. split; [assumption|]. unfold changed_old, changed_new. split; [|split].
+    + intros k. split; [tauto|]. intros [H|[x [[o [n [[] _]]]|[o [n [[] _]]]]]]. assumption.
+    + intros t x. split; [tauto|]. intros [H|[o [n [[] _]]]]. assumption.
+    + intros t x. split; [tauto|]. intros [H|[o [n [[] _]]]]. assumption.
+  - set (m1 := adj_step iter m (r, (o, n))).
+    assert (H1 : aff_sorted m1 /\ NoDup (map fst m1) /\
+                 (forall k, In k (map fst m1) <->
+                            In k (map fst m) \/ (cell_eqb n o = false /\ (In k (iter o) \/ In k (iter n)))) /\
+                 (forall t x, In x (ru_removals (aff_get t m1)) <->
+                              In x (ru_removals (aff_get t m)) \/ (x = r /\ cell_eqb n o = false /\ In t (iter o))) /\
+                 (forall t x, In x (ru_additions (aff_get t m1)) <->
+                              In x (ru_additions (aff_get t m)) \/ (x = r /\ cell_eqb n o = false /\ In t (iter n)))).
+    { unfold m1, adj_step. cbn [fst snd]. destruct (cell_eqb n o) eqn:E; cbn [negb].
+      - split; [assumption|]. split; [assumption|]. split; [|split]; intros; split; try tauto;
+          intros [H|H]; try assumption; destruct H as [? H]; try discriminate; destruct H; discriminate.
+      - destruct (aff_fold_remove r (iter o) m Hs Hn) as [A1 [A2 [A3 [A4 A5]]]].
+        destruct (aff_fold_add r (iter n) _ A1 A2) as [B1 [B2 [B3 [B4 B5]]]].
+        split; [exact B1|]. split; [exact B2|]. split; [|split].
+        + intros k. rewrite B3, A3. tauto.
+        + intros t x. rewrite B5, A4. tauto.
+        + intros t x. rewrite B4, A5. tauto. }
+    destruct H1 as [Hs1 [Hn1 [K1 [R1 D1]]]].
+    destruct (IH m1 Hs1 Hn1) as [Hs' [Hn' [K' [R' D']]]].
+    split; [exact Hs'|]. split; [exact Hn'|]. unfold changed_old, changed_new in *. split; [|split].
+    + intros k. rewrite K', K1. split.
+      * intros [[H|[E [H|H]]]|[x [[o' [n' [Hin H]]]|[o' [n' [Hin H]]]]]].
+        -- left. assumption.
+        -- right. exists r. left. exists o, n. split; [left; reflexivity|split; assumption].
+        -- right. exists r. right. exists o, n. split; [left; reflexivity|split; assumption].
+        -- right. exists x. left. exists o', n'. split; [right; assumption|assumption].
+        -- right. exists x. right. exists o', n'. split; [right; assumption|assumption].
+      * intros [H|[x [[o' [n' [[Heq|Hin] [E H]]]]|[o' [n' [[Heq|Hin] [E H]]]]]]].
+        -- left. left. assumption.
+        -- inversion Heq; subst. left. right. split; [assumption|left; assumption].
+        -- right. exists x. left. exists o', n'. split; [assumption|split; assumption].
+        -- inversion Heq; subst. left. right. split; [assumption|right; assumption].
+        -- right. exists x. right. exists o', n'. split; [assumption|split; assumption].
+    + intros t x. rewrite R', R1. split.
+      * intros [[H|[-> [E H]]]|[o' [n' [Hin H]]]].
+        -- left. assumption.
+        -- right. exists o, n. split; [left; reflexivity|split; assumption].
+        -- right. exists o', n'. split; [right; assumption|assumption].
+      * intros [H|[o' [n' [[Heq|Hin] [E H]]]]].
+        -- left. left. assumption.
+        -- inversion Heq; subst. left. right. split; [reflexivity|split; assumption].
+        -- right. exists o', n'. split; [assumption|split; assumption].
+    + intros t x. rewrite D', D1. split.
+      * intros [[H|[-> [E H]]]|[o' [n' [Hin H]]]].
+        -- left. assumption.
+        -- right. exists o, n. split; [left; reflexivity|split; assumption].
+        -- right. exists o', n'. split; [right; assumption|assumption].
+      * intros [H|[o' [n' [[Heq|Hin] [E H]]]]].
+        -- left. left. assumption.
+        -- inversion Heq; subst. left. right. split; [reflexivity|split; assumption].
+        -- right. exists o', n'. split; [assumption|split; assumption].
+Qed.
+
+Lemma fold_discard_spec : forall rs s, sorted s ->
+  let s' := fold_left (fun s0 r => set_discard r s0) rs s in
+  sorted s' /\ forall x, In x s' <-> In x s /\ ~ In x rs.
+Proof.
+  induction rs as [|r rs IH]; intros s Hs; cbn [fold_left].
+  - split; [assumption|]. intros x. cbn. tauto.
+  - destruct (IH (set_discard r s) (set_discard_sorted r s Hs)) as [H1 H2]. split; [exact H1|].
+    intros x. rewrite H2, set_discard_In by assumption. cbn [In].
+    assert (r = x <-> x = r) by (split; congruence). tauto.
+Qed.
+
+Lemma fold_add_spec : forall rs s, sorted s ->
+  let s' := fold_left (fun s0 r => set_add r s0) rs s in
+  sorted s' /\ forall x, In x s' <-> In x s \/ In x rs.
+Proof.
+  induction rs as [|r rs IH]; intros s Hs; cbn [fold_left].
+  - split; [assumption|]. intros x. cbn. tauto.
+  - destruct (IH (set_add r s) (set_add_sorted r s Hs)) as [H1 H2]. split; [exact H1|].
+    intros x. rewrite H2, set_add_In. cbn [In]. assert (r = x <-> x = r) by (split; congruence). tauto.
+Qed.
+
+Lemma get_affected_single : forall t m, all_sorted m ->
+  sorted (get_affected_rows [t] m) /\ forall x, In x (get_affected_rows [t] m) <-> In x (inv_get t m).
+Proof.
+  intros t m Hs. unfold get_affected_rows. cbn [fold_left]. split.
+  - apply set_union_sorted. apply sorted_nil.
+  - intros x. rewrite set_union_In. cbn. tauto.
+Qed.
+
+(* the result of get_reverse_adjustments *)
+Theorem adj_spec : forall rows olds news iter inv, all_sorted inv ->
+  let trs := combine rows (combine olds news) in
+  let adj := get_reverse_adjustments_ref rows olds news iter inv in
+  NoDup (map fst adj) /\
+  (forall t, In t (map fst adj) <-> exists x, changed_old iter trs t x \/ changed_new iter trs t x) /\
+  (forall t l, In (t, l) adj ->
+     sorted l /\
+     forall x, In x l <-> (In x (inv_get t inv) /\ ~ changed_old iter trs t x) \/ changed_new iter trs t x).
+Proof.
+  intros rows olds news iter inv Hinv trs adj.
+  destruct (aff_outer iter trs [] aff_sorted_nil (NoDup_nil _)) as [Hs [Hn [Hk [Hr Ha]]]].
+  set (aff := fold_left (adj_step iter) trs []) in *.
+  assert (Hadj : adj = map (fun tu : Z * ref_updates =>
+                              (fst tu,
+                               fold_left (fun s r => set_add r s) (ru_additions (snd tu))
+                                 (fold_left (fun s r => set_discard r s) (ru_removals (snd tu))
+                                    (get_affected_rows [fst tu] inv)))) aff).
+  { reflexivity. }
+  assert (Hfst : map fst adj = map fst aff).
+  { rewrite Hadj, map_map. reflexivity. }
+  split; [rewrite Hfst; exact Hn|]. split.
+  - intros t. rewrite Hfst, Hk. cbn [map In]. tauto.
+  - intros t l Hin. rewrite Hadj in Hin. apply in_map_iff in Hin. destruct Hin as [[t' u] [Heq Hin]].
+    cbn [fst snd] in Heq. inversion Heq; subst t' l. clear Heq.
+    assert (Hu : u = aff_get t aff).
+    { unfold aff_get. clear - Hin Hn. induction aff as [|[k u0] aff IH]; [destruct Hin|].
+      cbn [aff_find]. cbn [map fst] in Hn. inversion Hn as [|? ? Hnot Hn']; subst.
+      destruct Hin as [Heq|Hin].
+      - inversion Heq; subst. rewrite Z.eqb_refl. reflexivity.
+      - destruct (Z.eqb t k) eqn:E; [|apply IH; assumption].
+        apply Z.eqb_eq in E. subst k. exfalso. apply Hnot. apply in_map_iff. exists (t, u). split; [reflexivity|assumption]. }
+    destruct (get_affected_single t inv Hinv) as [G1 G2].
+    destruct (fold_discard_spec (ru_removals u) _ G1) as [D1 D2].
+    destruct (fold_add_spec (ru_additions u) _ D1) as [A1 A2].
+    split; [exact A1|]. intros x. rewrite A2, D2, G2. subst u. rewrite Hr, Ha. cbn [aff_get aff_find ru_empty ru_removals ru_additions In]. tauto.
+Qed.
+
+(* END-PART-3 *)
